@@ -116,9 +116,21 @@ def gen_space(rng, allow_prod=True, small=False):
         # power space X^d: GroupL1Norm and its ball live here
         d = rng.choice([1, 2, 2, 3])
         base = gen_space(rng, allow_prod=False, small=True)
-        sp = odl.ProductSpace(base.odl, d)
-        out = Sp('power', sp, base.w * d, parts=[base] * d, ctor='odl.ProductSpace(%s, %d)' % (base.ctor, d))
-        out.d, out.m = d, base.n
+        r = rng.random()
+        if r < 0.4:
+            cw, wkw, kind = [1.0] * d, '', 'power'
+        elif r < 0.65:
+            c = rng.choice([0.5, 2.0, 4.0])
+            cw, wkw, kind = [c] * d, ', weighting=%r' % c, 'power_const'
+        else:
+            cw = [rng.choice([0.5, 1.0, 2.0, 4.0]) for _ in range(d)]
+            wkw, kind = ', weighting=%r' % (cw,), 'power_array'
+        sp = eval('odl.ProductSpace(B, d%s)' % wkw, {'odl': odl, 'B': base.odl, 'd': d})
+        flat = []
+        for c in cw:
+            flat += [c * v for v in base.w]
+        out = Sp(kind, sp, flat, parts=[base] * d, ctor='odl.ProductSpace(%s, %d%s)' % (base.ctor, d, wkw))
+        out.d, out.m, out.cw = d, base.n, cw
         return out
     m = rng.choice([2, 2, 3])
     parts = [gen_space(rng, allow_prod=False, small=True) for _ in range(m)]
@@ -162,8 +174,11 @@ def gen_leaf(rng, sp, S='S'):
     F = odl.solvers
     if sp.parts:
         choices = ['sep', 'sep', 'sep', 'l2sq', 'const', 'indzero', 'l2', 'ball2', 'quad', 'l1', 'ballinf']
-        if sp.kind == 'power':
+        if sp.kind.startswith('power'):
             choices += ['group', 'group', 'groupball', 'groupball']
+        if sp.kind in ('power_const', 'power_array'):
+            # SeparableSum builds its own unweighted product space
+            choices = [c for c in choices if c != 'sep']
     else:
         choices = ['l1', 'l2', 'linf', 'ball1', 'ball2', 'ballinf', 'l2sq', 'const', 'zero', 'indzero',
                    'huber', 'huber', 'quad', 'quad']
@@ -173,7 +188,7 @@ def gen_leaf(rng, sp, S='S'):
     if k in ('group', 'groupball'):
         b = (k == 'group')
         obj = F.GroupL1Norm(sp.odl, 2) if b else F.IndicatorGroupL1UnitBall(sp.odl, 2)
-        return Node(obj, '(cGroup %d %d %s)' % (sp.d, sp.m, C.b(b)),
+        return Node(obj, '(cGroup %s %d %s)' % (C.qs(sp.cw), sp.m, C.b(b)),
                     'F.%s(%s, 2)' % ('GroupL1Norm' if b else 'IndicatorGroupL1UnitBall', S), True)
     if k == 'sep':
         subs = []
@@ -358,6 +373,27 @@ def obs_vec(sp, fn):
     return '(IVec %s)' % C.qs(v)
 
 
+def obs_prox_modes(sp, opfn, X):
+    """the three ways a proximal is called: op(x), op(x, out=fresh), op(x, out=x) (the in-place pattern of
+    admm / douglas_rachford / dca).  All three are compared with the same model value."""
+    try:
+        op = opfn()
+    except Exception as e:  # noqa
+        er = '(IVE %s)' % _err(e)
+        return er, er, er
+
+    def fresh():
+        out = op.range.element()
+        r = op(X, out=out)
+        return out if r is None else r
+
+    def aliased():
+        xc = X.copy()
+        r = op(xc, out=xc)
+        return xc if r is None else r
+    return obs_vec(sp, lambda: op(X)), obs_vec(sp, fresh), obs_vec(sp, aliased)
+
+
 def pyshape(f):
     """preorder class tags of an odl functional (must mirror C08/Corr.v:shape)."""
     import odl
@@ -431,8 +467,11 @@ def make_case(sp, node, x, y, sigma):
     val = obs_val(lambda: f(X))
     cval = obs_val(lambda: fc(Y)) if fc is not None else 'ISkip'
     ccval = obs_val(lambda: fcc(X)) if fcc is not None else 'ISkip'
-    prox = obs_vec(sp, lambda: f.proximal(sigma)(X))
-    cprox = obs_vec(sp, lambda: fc.proximal(1.0 / sigma)(X / sigma)) if fc is not None else 'IVSkip'
+    prox, prox_f, prox_a = obs_prox_modes(sp, lambda: f.proximal(sigma), X)
+    if fc is not None:
+        cprox, cprox_f, cprox_a = obs_prox_modes(sp, lambda: fc.proximal(1.0 / sigma), X / sigma)
+    else:
+        cprox = cprox_f = cprox_a = 'IVSkip'
     gcell = {}
 
     def _g():
@@ -446,10 +485,10 @@ def make_case(sp, node, x, y, sigma):
     else:
         cgval = 'ISkip'
     term = ('{| k_w := %s; k_e := %s; k_x := %s; k_y := %s; k_sigma := %s; k_shape := %s; k_val := %s; '
-            'k_cshape := %s; k_cval := %s; k_ccshape := %s; k_ccval := %s; k_prox := %s; k_cprox := %s; '
-            'k_grad := %s; k_cgval := %s |}'
+            'k_cshape := %s; k_cval := %s; k_ccshape := %s; k_ccval := %s; k_prox := %s; k_prox_f := %s; '
+            'k_prox_a := %s; k_cprox := %s; k_cprox_f := %s; k_cprox_a := %s; k_grad := %s; k_cgval := %s |}'
             % (C.qs(sp.w), node.coq, C.qs(x), C.qs(y), C.q(sigma), shp, val, cshp, cval, ccshp, ccval,
-               prox, cprox, grad, cgval))
+               prox, prox_f, prox_a, cprox, cprox_f, cprox_a, grad, cgval))
     desc = {'space': sp.ctor, 'f': node.py, 'x': x, 'y': y, 'sigma': sigma}
     return term, desc
 
@@ -593,10 +632,27 @@ def chk_moreau(f, x, s):
     try:
         fc = f.convex_conj
         if np.isscalar(s) or hasattr(s, 'space'):
-            # a positive scalar, or one step per entry given as a space element
-            p = f.proximal(s)(x)
-            q = fc.proximal(1.0 / s)(x / s)
-            res = p + s * q - x
+            # a positive scalar, or one step per entry given as a space element; every call mode
+            # (out-of-place, out=fresh element, out=the input itself) must give the identity
+            P, Q = f.proximal(s), fc.proximal(1.0 / s)
+            worst, res = -1.0, None
+            for mode in ('value', 'fresh', 'aliased'):
+                if mode == 'value':
+                    p, q = P(x), Q(x / s)
+                elif mode == 'fresh':
+                    p, q = P.range.element(), Q.range.element()
+                    P(x, out=p)
+                    Q(x / s, out=q)
+                else:
+                    p, q = x.copy(), x / s
+                    P(p, out=p)
+                    Q(q, out=q)
+                r_m = p + s * q - x
+                e_m = float(np.max(np.abs(_flatten(r_m)))) if x.space.size else 0.0
+                if e_m != e_m:
+                    e_m = np.inf
+                if e_m > worst:
+                    worst, res = e_m, r_m
         else:
             p = f.proximal(list(s))(x)
             xs = x.space.element([xi / si for xi, si in zip(x, s)])
@@ -676,7 +732,12 @@ def class_probes(rng, tier, out):
               ('discr1', 'odl.uniform_discr(0, 1.5, 3)'), ('discr2', 'odl.uniform_discr([0, 0], [1, 1], [2, 2])')]
     pspaces = [('power', 'odl.ProductSpace(odl.rn(3), 2)'),
                ('power_discr', 'odl.ProductSpace(odl.uniform_discr(0, 1, 4), 2)'),
-               ('power_weighted', 'odl.ProductSpace(odl.rn(2, weighting=2.0), 3)')]
+               ('power_weighted', 'odl.ProductSpace(odl.rn(2, weighting=2.0), 3)'),
+               # component weightings of the product space != 1 (constant / per component), also on weighted bases
+               ('pw_const', 'odl.ProductSpace(odl.rn(3), 2, weighting=2.0)'),
+               ('pw_array', 'odl.ProductSpace(odl.rn(3), 2, weighting=[1.0, 4.0])'),
+               ('pw_array_discr', 'odl.ProductSpace(odl.uniform_discr(0, 1.5, 3), 3, weighting=[0.5, 2.0, 1.0])'),
+               ('pw_array_wbase', 'odl.ProductSpace(odl.rn(2, weighting=np.array([0.5, 2.0])), 2, weighting=[4.0, 0.5])')]
     mspaces = [('matrix_power', 'odl.ProductSpace(odl.ProductSpace(odl.rn(2), 2), 3)')]
 
     def rnd(space, lo, hi):
@@ -766,13 +827,19 @@ def class_probes(rng, tier, out):
             '(F.QuadraticForm(vector=S.one()) + F.QuadraticForm(vector=2 * S.one())) * 4.0', ('biconj',),
             key='defaultconj-linear-flag')
     for kind, sctor in pspaces:
+        weighted = kind.startswith('pw_')
         for e in (1, 2):
-            run('GroupL1-%d' % e, kind, sctor, 'F.GroupL1Norm(S, %d)' % e, allc)
-            run('GroupL1ball-%s' % e, kind, sctor, 'F.GroupL1Norm(S, %d).convex_conj' % e, allc, xr=(-1, 1))
+            # exponent 1 on a weighted product space: the conjugate ball uses the WEIGHTED pointwise inf-norm
+            # (finding groupl1-exp1-weighted-pspace)
+            k1 = 'groupl1-exp1-weighted-pspace' if (weighted and e == 1) else None
+            run('GroupL1-%d' % e, kind, sctor, 'F.GroupL1Norm(S, %d)' % e, allc, key=k1)
+            run('GroupL1ball-%s' % e, kind, sctor, 'F.GroupL1Norm(S, %d).convex_conj' % e, allc, xr=(-1, 1), key=k1)
         run('L1-on-product', kind, sctor, 'F.L1Norm(S)', allc)
         run('L2-on-product', kind, sctor, 'F.L2Norm(S)', allc)
         run('L2sq-on-product', kind, sctor, 'F.L2NormSquared(S)', allc)
         run('Huber-on-product', kind, sctor, 'F.Huber(S, 0.75)', allc)
+        if weighted:
+            continue          # SeparableSum builds its own unweighted product space
         run('SepSum-list-sigma', kind, sctor,
             'F.SeparableSum(*[F.L1Norm(S[0]), F.L2NormSquared(S[0]), F.L2Norm(S[0])][:len(S)])', ('moreau',),
             sig=[0.5, 2.0, 1.0][:2 if 'rn(2' not in sctor else 3])
